@@ -257,6 +257,8 @@ def run(F, rep, tier):
     collection_equality_rule(F, rep)
     # ---------------- R09.8
     number_order_rule(F, rep)
+    # ---------------- R09.9
+    mirror_rule(F, rep)
 
 
 def between_form(F, rep, rid, k):
@@ -606,3 +608,80 @@ def number_order_rule(F, rep):
             rep.ok(rid, key, "decQuadCompare(self, rhs)")
         else:
             rep.violation(rid, key, "%s does not compare through decQuadCompare(self, rhs) (found %s)" % (cands[0], got), "%s:%s" % (h["file"], h["line"]))
+
+
+def mirror_rule(F, rep):
+    """R09.9: a = b and b = a (a < b and b > a) agree on date-times only if compare(me, other) derives everything it needs from `other` exactly the way it
+    derives it from `me`. The intermediate values of compare() (and of its twin subtract()) are put into a canonical form over the two parameters; a value
+    that has the shape of one of the single-operand computations but mixes both operands is a crossed copy (`get_zone_offset(zone_of_other, date_of_me)`)."""
+    rid = rep.rule("R09.9", "temporal compare()/subtract() derive the same intermediate values from both operands: no intermediate value of single-operand shape mixes `me` and `other`")
+    import copy
+    n = 0
+    for fn in ("compare", "subtract"):
+        h = F.hir.get(TEMPORAL + fn)
+        if h is None:
+            rep.missing_anchor(rid, TEMPORAL + fn)
+            continue
+        params = [p.get("name") for p in h.get("params", [])]
+        if len(params) != 2:
+            continue
+        lets = {}
+        order = []
+
+        def canon(e, bound):
+            """name-independent canonical form; parameters -> P0/P1, let-bound locals inlined, pattern-bound locals numbered by first appearance"""
+            if isinstance(e, list):
+                return [canon(x, bound) for x in e]
+            if not isinstance(e, dict):
+                return e
+            if e.get("k") == "Path" and e.get("res") == "local":
+                nm = e.get("name")
+                if nm in params:
+                    return "P%d" % params.index(nm)
+                if nm in lets:
+                    return lets[nm]
+                if nm not in bound:
+                    bound[nm] = "b%d" % len(bound)
+                return bound[nm]
+            if e.get("k") == "Bind":
+                nm = e.get("name")
+                if nm not in bound:
+                    bound[nm] = "b%d" % len(bound)
+                return {"k": "Bind", "n": bound[nm], "sub": canon(e.get("sub"), bound) if "sub" in e else None}
+            out = {}
+            for k2, v in e.items():
+                if k2 in ("l", "t", "adj_t", "text", "m", "self_ty", "self_ty_s", "name") and not (k2 == "name" and e.get("k") == "Field"):
+                    continue
+                out[k2] = canon(v, bound)
+            return out
+        for st in h["body"]["b"].get("stmts", []):
+            if st.get("k") == "LetStmt" and "e" in st and st["p"].get("k") == "Bind":
+                c = canon(st["e"], {})
+                lets[st["p"]["name"]] = c
+                order.append((st["p"]["name"], c, st.get("l")))
+        pure = {0: [], 1: []}
+        mixed = []
+        for nm, c, line in order:
+            txt = json.dumps(c, sort_keys=True)
+            has0, has1 = '"P0"' in txt, '"P1"' in txt
+            if has0 and has1:
+                mixed.append((nm, txt, line))
+            elif has0:
+                pure[0].append((nm, txt, line))
+            elif has1:
+                pure[1].append((nm, txt, line))
+        erase = lambda t: t.replace('"P0"', '"P"').replace('"P1"', '"P"')
+        shapes = {erase(t) for _, t, _ in pure[0] + pure[1]}
+        key = "mirror:%s" % fn
+        n += len(pure[0]) + len(pure[1])
+        bad = [(nm, line) for nm, t, line in mixed if erase(t) in shapes]
+        swapped = sorted(t.replace('"P0"', '"P1"') for _, t, _ in pure[0])
+        if bad:
+            rep.violation(rid, key, "in %s the value `%s` (line %s) is computed like the per-operand values but from both operands at once: a crossed copy, the result depends on the operand order"
+                          % (fn, bad[0][0], bad[0][1]), "%s:%s" % (h["file"], bad[0][1]))
+        elif swapped != sorted(t for _, t, _ in pure[1]):
+            rep.violation(rid, key, "%s derives %d value(s) from its first operand and %d from its second, and they are not the same computations with the operands exchanged"
+                          % (fn, len(pure[0]), len(pure[1])), "%s:%s" % (h["file"], h["line"]))
+        else:
+            rep.ok(rid, key, "%d intermediate values per operand, identical up to exchanging the operands" % len(pure[0]))
+    rep.floor(rid, "per-operand intermediate values in compare/subtract", n, 8)
